@@ -118,6 +118,42 @@ func genC11(t *rapid.T) (C11Case, bool) {
 		c.Prior = model.EmitLayout(prior, model.EmitOptions{ExtraManifest: c.Out.Manifest})
 		return c, true
 	}
+	if rapid.IntRange(0, 7).Draw(t, "manifestErr") == 0 {
+		// the package files are fine; the manifest (or a file next to the valid ones) is not
+		cfg := model.DefaultGen()
+		cfg.MaxDefs = 4
+		root := model.GenPackage(t, &cfg)
+		prior := root.Clone()
+		prior.Defs = append(prior.Defs, staleDefs()...)
+		c.Prior = model.EmitLayout(prior, model.EmitOptions{ExtraManifest: c.Out.Manifest})
+		v := root.Clone()
+		v.DirName = "v0"
+		root.Versions = []model.Version{{Label: "v0", Pkg: v}}
+		l := model.EmitLayout(root, model.EmitOptions{ExtraManifest: c.Out.Manifest})
+		m := l["main"]["_package.yml"]
+		c.Site = "manifest"
+		c.Rule = rapid.SampledFrom([]string{"duplicate-version-label", "version-dir-missing", "import-dir-missing", "yaml-syntax-error-in-first-file", "yaml-syntax-error-in-extra-file"}).Draw(t, "manifestRule")
+		switch c.Rule {
+		case "duplicate-version-label":
+			m = strings.Replace(m, "  v0: ../v0\n", "  v0: ../v0\n  v0: ../v0\n", 1)
+		case "version-dir-missing":
+			m = strings.Replace(m, "  v0: ../v0\n", "  v0: ../v0\n  v1: ../no-such-dir\n", 1)
+		case "import-dir-missing":
+			if strings.Contains(m, "imports:\n") {
+				m = strings.Replace(m, "imports:\n", "imports:\n  - ../no-such-dir\n", 1)
+			} else {
+				m = strings.Replace(m, "versions:\n", "imports:\n  - ../no-such-dir\nversions:\n", 1)
+			}
+		case "yaml-syntax-error-in-first-file":
+			// a file that sorts before every generated file, next to valid ones
+			l["main"]["a_first.yml"] = "Broken: !record\n  fields:\n    a: int\n   b: [unclosed\n"
+		case "yaml-syntax-error-in-extra-file":
+			l["main"]["zz_last.yml"] = "Broken: !record\n  fields:\n    a: int\n   b: [unclosed\n"
+		}
+		l["main"]["_package.yml"] = m
+		c.Layout = l
+		return c, true
+	}
 	c9, ok := genC09(t)
 	if !ok {
 		return c, false
